@@ -262,7 +262,11 @@ func (b *byzActor) hostileAct() {
 	cl := b.cl
 	defer func() {
 		if cl.now < cl.cfg.GST {
-			cl.push(&event{at: cl.now + time.Duration(5+cl.sched.Int(80))*time.Millisecond, kind: evByz, fn: b.hostileAct})
+			gap := time.Duration(5+cl.sched.Int(80)) * time.Millisecond
+			if cl.cfg.LongStall > 0 {
+				gap *= 25 // keep a 17-minute stall affordable
+			}
+			cl.push(&event{at: cl.now + gap, kind: evByz, fn: b.hostileAct})
 		}
 	}()
 	var live []*Node
